@@ -261,7 +261,17 @@ U12 = universe("U12", 4, [
 ], base=["(sum c 2 2 (f 3 2))", "(sum c 2 3 (v 3))", "(sum c 2 3 (f 2 3))", "(g (sum c 2 2 (f 3 2)))"],
    note="a doubly bound name (inner shadows outer) next to distinct binder names")
 
-ALL = {"U12": U12, "U11": U11, "U10": U10, "U9": U9, "U8": U8, "U7": U7, "U1": U1, "U2": U2, "U3": U3, "U4": U4, "U5": U5, "U6": U6}
+# U13 "almost instances": terms that fail to be an instance of a pattern ONLY because two different slots would have to be
+# the same pattern slot (injectivity of the slot bijection across different e-nodes of one match): h(p(1,2), v(3)) is no
+# instance of (h (p $1 $2) (v $1)), w(p(1,2); 3) none of (w (p $1 $2) $1) - and the collapsed spellings are absent.
+U13 = universe("U13", 4, [
+    (C, D),
+    (P12, P21),
+    ("(g (p 1 2))", "(g (p 2 1))"),
+], base=["(h (p 1 2) (v 3))", "(w 3 (p 1 2))", "(h (v 3) (p 1 2))", "(h (p 1 2) (p 3 2))"],
+   note="non-injective slot maps in e-matching")
+
+ALL = {"U13": U13, "U12": U12, "U11": U11, "U10": U10, "U9": U9, "U8": U8, "U7": U7, "U1": U1, "U2": U2, "U3": U3, "U4": U4, "U5": U5, "U6": U6}
 
 if __name__ == "__main__":
     out = os.path.dirname(os.path.abspath(__file__))
